@@ -238,6 +238,29 @@ def run(ck, facts):
             i_low = next((i for i, s in enumerate(items) if any(x.get("k") == "mcall" and x.get("m") == "lower_method" for x in C.walk(s))), None)
             okc = i_set is not None and i_low is not None and i_set < i_low
     ck.expect(okc, "R2", "lower_all_methods/set_subitem-first", "", "methods are lowered before the error context names the method", C.loc(lam))
+    # the context setters themselves are total: entering an item always resets the sub-item, whatever the previous context was
+    for fname, want in (("set_item", {"item": "param", "subitem": "None"}), ("set_subitem", {"subitem": "Some(param)"})):
+        sf = core.fn("hir::lowering::ErrorStore::" + fname)
+        body = C.fn_body(sf)
+        conds = [x.get("k") for x in C.walk(body) if x.get("k") in ("if", "match", "let", "while", "loop", "for", "ret") and not x.get("desugar")]
+        got = {}
+        for x in C.walk(body):
+            if x.get("k") == "assign":
+                ch = list(C.children(x))
+                r, path = C.place_root(ch[0])
+                rhs = C.strip(ch[1])
+                if r is not None and r.get("n") == "self" and len(path) == 1:
+                    if rhs.get("k") == "local":
+                        v = "param"
+                    elif (rhs.get("ctor") or rhs.get("p") or "").endswith("Option::None"):
+                        v = "None"
+                    elif (rhs.get("ctor") or rhs.get("p") or "").endswith("Option::Some") and any(y.get("k") == "local" for y in C.walk(rhs)):
+                        v = "Some(param)"
+                    else:
+                        v = "other"
+                    got[path[0]] = v
+        ck.expect(got == want and not conds, "R2", "ErrorStore::%s/total" % fname, str(got),
+                  "ErrorStore::%s is no longer the unconditional store %s (stores %s under %s): the context of a later error can name the previous item/method" % (fname, want, got, conds or "no condition"), C.loc(sf))
 
     # ---------------- R3 sibling agreement
     def has_ffi_check(loop):
